@@ -1056,3 +1056,96 @@ def add_init_modes(reg):
 
     spec.setup = setup
     return spec
+
+
+# ------------------------------------------------------------------------------------------------
+# user-block codec (C03 d, C05, C11)
+
+from .common_io import BytesVal, Stream  # noqa: E402
+
+T2_FILE = "T2 regular files: read(n) returns exactly min(n, remaining) bytes; seek(0) rewinds"
+
+
+def magic(cx):
+    mi = ModuleInfo.load(SRC / "ih5/record.py")
+    return cx.run.interp.resolve_name(cx, Frame(mi, "<module>", Env(None), spec=cx.run.spec), "FORMAT_MAGIC_STR")
+
+
+def _split_part(s, sep, idx):
+    """the term the engine builds for s.split(sep)[idx] (idx 1 or 2)"""
+    from pyvc.values import SplitVal
+
+    class _NoFail:
+        def decide_or_fail(self, *a, **k):
+            pass
+
+    return SplitVal(s, sep).py_getitem(_NoFail(), idx).t
+
+
+class ReadHeadRaw(FnSpec):
+    file = "ih5/record.py"
+    qual = "IH5UserBlock._read_head_raw"
+    props = ("C03", "C05", "C11")
+
+    def setup(self, cx):
+        size_n = z3.Int("size_number")
+        size_s, js, tail, rest = z3.String("size_digits"), z3.String("json_text"), z3.String("stale_tail"), z3.String("hdf5_payload")
+        m = z3.StringVal(magic(cx))
+        nl, nul = z3.StringVal("\n"), z3.StringVal("\x00")
+        block = z3.Concat(m, nl, size_s, nl, js, nul, tail)
+        a = A(cls=SClass("IH5UserBlock"), stream=Stream(z3.Concat(block, rest), exact=True), ub_size=SInt(z3.Int("ub_size")))
+        a.size_s, a.js, a.tail, a.block, a.size_n = size_s, js, tail, block, size_n
+        return a
+
+    def requires(self, cx, a):
+        nl, nul = z3.StringVal("\n"), z3.StringVal("\x00")
+        no = lambda s, c: z3.Not(z3.Contains(s, c))  # noqa: E731
+        return [
+            ("block-fills-the-probe", z3.Length(a.block) == a.ub_size.t),
+            ("size-is-a-written-number", z3.And(a.size_n >= 0, a.size_s == z3.IntToStr(a.size_n))),  # save() writes str(int): the decimal text of a non-negative int ...
+            ("size-is-decimal", z3.InRe(a.size_s, z3.Plus(z3.Range("0", "9")))),  # ... which consists of digits (T4; stated redundantly because neither solver derives it)
+            ("json-is-one-line-without-NUL", z3.And(no(a.js, nl), no(a.js, nul))),  # T5: .json() emits one line without NUL
+            ("tail-has-no-newline", no(a.tail, nl)),  # what follows the terminating NUL inside the block: zeros or the rest of an older, longer block
+        ]
+
+    def hints(self, cx, a):
+        m = z3.StringVal(magic(cx))
+        L0 = z3.IntVal(len(magic(cx)))
+        nl, nul = z3.StringVal("\n"), z3.StringVal("\x00")
+        from .common_io import exact_chunk
+
+        whole = a.stream.whole
+        b = exact_chunk(whole, a.ub_size.t)  # the term the code sees as `probe`
+        s_end = L0 + 1 + z3.Length(a.size_s)
+        third = z3.Concat(a.js, nul, a.tail)
+        return [
+            ("size-has-no-newline:first", z3.Not(z3.Contains(a.size_s, nl))),
+            ("probe-is-the-block", b == a.block),
+            ("first-newline-after-magic", z3.IndexOf(b, nl, 0) == L0),
+            ("second-newline-after-size", z3.IndexOf(b, nl, L0 + 1) == s_end),
+            ("no-third-newline", z3.IndexOf(b, nl, s_end + 1) == -1),
+            ("second-part-is-size", z3.SubString(b, L0 + 1, s_end - (L0 + 1)) == a.size_s),
+            ("third-part", z3.SubString(b, s_end + 1, z3.Length(b) - (s_end + 1)) == third),
+            ("first-NUL-ends-json", z3.IndexOf(third, nul, 0) == z3.Length(a.js)),
+            ("first-part-is-magic", z3.SubString(b, 0, L0) == m),
+            ("size-parses", z3.StrToInt(a.size_s) == a.size_n),
+            ("code-second-part-is-size", _split_part(b, nl, 1) == a.size_s),
+            ("code-second-part-parses", z3.StrToInt(_split_part(b, nl, 1)) == a.size_n),
+            ("code-third-part", _split_part(b, nl, 2) == third),
+            ("code-third-part-first-NUL", z3.IndexOf(_split_part(b, nl, 2), nul, 0) == z3.Length(a.js)),
+            ("size-has-no-newline", z3.Not(z3.Contains(a.size_s, nl))),
+        ]
+
+    def ensures(self, cx, a, res):
+        if not (isinstance(res, tuple) and len(res) == 2 and isinstance(res[0], SInt) and isinstance(res[1], SStr)):
+            return [("result-shape", z3.BoolVal(False), "a well-formed block is recognised")]
+        return [
+            ("size-line", res[0].t == a.size_n, "the claimed user block size is the number on the second line"),
+            ("data-ends-at-first-NUL", res[1].t == a.js, "the embedded data ends at the first NUL byte: a stale tail of an earlier, longer block is ignored"),
+        ]
+
+
+def add_codec(reg):
+    s = ReadHeadRaw()
+    reg.add(s)
+    return [s]
